@@ -32,6 +32,7 @@ func RunArms(cfg core.Config, scope core.Scope) *core.Result {
 	res := core.NewResult("ARMS")
 	res.Rules = append(res.Rules,
 		"ARGS.arms: the positive- and negative-increment arms of a length check compare len(v) with the same extent and the same strictness (polynomial normal form after incV := -incV)",
+		"ARGS.fullrow: the extent a matrix operand's length is compared with is not a pure multiple of its leading dimension (rows*ld would reject the exactly-minimal (rows-1)*ld+cols)",
 		"ARGS.strict: len(v) compared with a strided extent uses <= for a largest-index form and < for an element-count form (extent evaluated with strides 0, other variables 1)")
 	res.Configs = append(res.Configs, cfg.String())
 	pkgs, err := core.Load(cfg, scope.Patterns...)
@@ -456,6 +457,44 @@ func (a *armsCheck) strict(be *ast.BinaryExpr) {
 	} else if val < 0 {
 		a.res.Count("strided_length_comparisons_unclassified", 1)
 		return
+	}
+	// ARGS.fullrow: a matrix needs (rows-1)*ld + cols elements; an extent that
+	// is a pure multiple of the leading dimension (rows*ld) demands a full last
+	// row and rejects an exactly-minimal slice (a column-sliced view).
+	if p, ok := a.polyOf(ext); ok {
+		var ld string
+		for m := range p {
+			if m == "" {
+				continue
+			}
+			for _, at := range strings.Split(string(m), "*") {
+				if strings.HasPrefix(at, "ld") && len(at) > 2 {
+					ld = at
+				}
+			}
+		}
+		if ld != "" {
+			a.res.Obligations++
+			a.res.Count("matrix_extent_polynomials", 1)
+			rest := false
+			for m := range p {
+				has := false
+				if m != "" {
+					for _, at := range strings.Split(string(m), "*") {
+						if at == ld {
+							has = true
+						}
+					}
+				}
+				if !has {
+					rest = true
+				}
+			}
+			if !rest {
+				a.res.Add(core.Finding{Rule: "ARGS.fullrow", Key: fmt.Sprintf("ARGS.fullrow|%s|%s", a.fn, v), Pos: core.Pos(be.Pos()), Func: a.fn,
+					Msg: fmt.Sprintf("%s: the extent %s is a pure multiple of the leading dimension %s: it demands a full last row, so an exactly-minimal slice of (rows-1)*%s+cols elements (a column-sliced view) is rejected", types.ExprString(be), types.ExprString(ext), ld, ld)})
+			}
+		}
 	}
 	if op == want {
 		return
